@@ -6,3 +6,4 @@ pub mod baton; // C19-B: E-THREAD baton scheduler (two OS threads at hooked yiel
 pub mod router_harness; // C02-B / C10-A: E-ASYNC world around the real Connection::router (H-CONN-ROUTER), scripted peer, frame helper
 pub mod specmodel; // C13: reference model of the speculative-execution contract
 pub mod execharness; // C06-B/C13-B: recording retry policy + history listener for runs through H-EXEC
+pub mod bfs_reuse; // C02-A: vcore E-BFS that reuses the object rebuilt for `enabled` (expensive 32768-id pre-fill)
